@@ -186,7 +186,9 @@ func (in *Inst) open() {
 		}
 		return &persistDB{Store: db, drop: func() { delete(in.EpDBs, e) }}
 	}, crit, scfg)
-	in.VI = vecfc.NewIndex(crit, in.Cfg.Index.Config())
+	if in.VI == nil { // RestartKeepIndex hands over the old index object
+		in.VI = vecfc.NewIndex(crit, in.Cfg.Index.Config())
+	}
 	in.L = abft.NewIndexedLachesis(in.Store, in.In, &adapters.VectorToDagIndexer{Index: in.VI}, crit, abft.LiteConfig())
 }
 
@@ -231,8 +233,14 @@ func (in *Inst) boot() {
 // Restart simulates a process restart: the persisted main DB and current epoch DB are copied into fresh
 // databases, and a new store / vector index / consensus object is bootstrapped over them. The event
 // source (the application's event storage) and the block log are carried over.
-func (in *Inst) Restart() *Inst {
-	n := &Inst{In: in.In, Cfg: in.Cfg, Seal: in.Seal, MainDB: copyDB(in.MainDB, func() {}), EpDBs: map[idx.Epoch]kvdb.Store{}}
+func (in *Inst) Restart() *Inst { return in.restart(nil) }
+
+// RestartKeepIndex re-creates the store and the consensus object (fresh Build counter) but keeps the very same
+// vecfc.Index object, as an application does that owns one index for its lifetime; Bootstrap resets it over the epoch DB.
+func (in *Inst) RestartKeepIndex() *Inst { return in.restart(in.VI) }
+
+func (in *Inst) restart(keep *vecfc.Index) *Inst {
+	n := &Inst{In: in.In, Cfg: in.Cfg, Seal: in.Seal, MainDB: copyDB(in.MainDB, func() {}), EpDBs: map[idx.Epoch]kvdb.Store{}, VI: keep}
 	for ep, db := range in.EpDBs { // every epoch database that was not dropped survives the restart
 		n.EpDBs[ep] = copyDB(db, func() {})
 	}
